@@ -100,6 +100,26 @@ def class_case(nap, ts_all, a, b, supkind):
             elif _sup(r) != before:
                 V.append({"key": dict(kk, op="get", part="support", empty_result=not exp), "what": "get(start, end) changed the time support", "input": inp,
                           "impl": _sup(r), "expected": before})
+            # composition (theorems C08_get_get, C08_get_commute_idempotent, C08_get_is_restrict): a second window taken from the result is the
+            # window of the intersected range, in either order; a window with start < end holds the samples of restrict(IntervalSet(start, end))
+            if exp and not zs and type(r) is type(x):
+                c2, d2 = ts_all[len(ts_all) // 3], ts_all[(2 * len(ts_all)) // 3]
+                exp2 = [i for i in exp if c2 <= ts[i] <= d2]
+                inp2 = dict(inp, c=c2, d=d2)
+                try:
+                    r2 = r.get(c2 / f, d2 / f, time_units=units)
+                    r3 = x.get(c2 / f, d2 / f, time_units=units).get(a / f, b / f, time_units=units)
+                    r4 = r.get(a / f, b / f, time_units=units)
+                    rr = x.restrict(nap.IntervalSet(a / f, b / f, time_units=units)) if a < b else None
+                except Exception as ex:
+                    V.append({"key": dict(kk, op="get", part="compose_exception"), "what": "get of a get / restrict by the window raised %s: %s" % (type(ex).__name__, str(ex)[:100]), "input": inp2})
+                else:
+                    for part, y, e_ in (("get_get", r2, exp2), ("get_commute", r3, exp2), ("get_idempotent", r4, exp), ("get_is_restrict", rr, exp)):
+                        if y is None:
+                            continue
+                        if [C.to_ns(t) for t in y.t] != [ts[i] for i in e_] or (cls != "Ts" and not np.array_equal(y.values, vals[cls][e_])):
+                            V.append({"key": dict(kk, op="get", part=part), "what": "composition law of get(start, end) fails (%s): samples or rows differ from the window of the intersected range" % part,
+                                      "input": inp2, "impl": [C.to_ns(t) for t in y.t], "expected": [ts[i] for i in e_]})
             if np.arange(n)[cs].tolist() not in [[i] for i in near]:
                 V.append({"key": dict(kk, op="get_slice(start)", part="nearest"), "what": "get_slice(start) does not select a sample nearest to start", "input": inp})
             if cls == "Ts":
